@@ -235,8 +235,8 @@ def evaluate(ctx, r, rf, cfg, nodes, sessions, mode, meta):
     if mode == 'repeat':
         hp = [e['bytes'] for e in ev if e.get('e') == 'heap' and str(e.get('tag', '')).startswith('rep')]
         ctx.count('heap_series')
-        if len(hp) >= 5 and not (hp[2] == hp[3] == hp[4] == hp[5] if len(hp) > 5 else hp[2] == hp[3] == hp[4]):
-            ctx.violation('heap-growth', 'repeated-session', f'allocated bytes after identical sessions: {hp} (must be constant from the third repetition on)', r.scenario, r.flavour, meta)
+        if len(hp) >= 6 and all(hp[i + 1] > hp[i] for i in range(2, 5)):
+            ctx.violation('heap-growth', 'repeated-session', f'allocated bytes grow with every identical session: {hp}', r.scenario, r.flavour, meta)
             return
     pv, pf = probe_view(r), probe_view(rf)
     if pv is None or pf is None:
